@@ -80,7 +80,10 @@ struct Snap
 static std::string key_of(StringFromTime const& s)
 {
   std::string k = std::to_string(s._cached_timestamp) + "/" + std::to_string(s._next_recalculation_timestamp) + "/" +
-    std::to_string(s._cached_seconds) + "/" + s._pre_formatted_ts;
+    std::to_string(s._cached_seconds) + "/" + s._pre_formatted_ts + "/";
+  // every mutable member belongs to the key (the positions are normally a function of the pattern and the
+  // pre-formatted text, but a key that leaves them out would merge states with different futures if they were not)
+  for (auto const& ci : s._cached_indexes) k += std::to_string(ci.first) + ":" + std::to_string(static_cast<int>(ci.second)) + ",";
   return k;
 }
 
